@@ -232,5 +232,277 @@ theorem std_exponential_second_moment : ∫ x in Set.Ioi (0 : ℝ), x ^ 2 * exp 
   rw [← rpow_natCast x 2]
   norm_num
 
+/-! ### Triangular law -/
+
+/-- Integral of a cubic polynomial (fundamental theorem of calculus). -/
+theorem integral_poly3 (c0 c1 c2 c3 a b : ℝ) :
+    ∫ x in a..b, (c0 + c1 * x + c2 * x ^ 2 + c3 * x ^ 3) =
+      c0 * (b - a) + c1 * (b ^ 2 - a ^ 2) / 2 + c2 * (b ^ 3 - a ^ 3) / 3 + c3 * (b ^ 4 - a ^ 4) / 4 := by
+  have hd : ∀ x ∈ Set.uIcc a b, HasDerivAt
+      (fun x => c0 * x + c1 * x ^ 2 / 2 + c2 * x ^ 3 / 3 + c3 * x ^ 4 / 4)
+      (c0 + c1 * x + c2 * x ^ 2 + c3 * x ^ 3) x := by
+    intro x _
+    have h1 := (hasDerivAt_id' x).const_mul c0
+    have h2 := ((hasDerivAt_pow 2 x).const_mul c1).div_const 2
+    have h3 := ((hasDerivAt_pow 3 x).const_mul c2).div_const 3
+    have h4 := ((hasDerivAt_pow 4 x).const_mul c3).div_const 4
+    have h := ((h1.fun_add h2).fun_add h3).fun_add h4
+    exact h.congr_deriv (by norm_num; ring)
+  have hint : IntervalIntegrable (fun x => c0 + c1 * x + c2 * x ^ 2 + c3 * x ^ 3) MeasureTheory.volume a b :=
+    Continuous.intervalIntegrable (by fun_prop) a b
+  rw [intervalIntegral.integral_eq_sub_of_hasDerivAt hd hint]
+  ring
+
+theorem triangular_cdf_icdf (a m b p : ℝ) (ham : a < m) (hmb : m < b) (hp0 : 0 ≤ p) (hp1 : p ≤ 1) :
+    triangularCdf a m b (triangularIcdf a m b p) = p := by
+  have hab : a < b := lt_trans ham hmb
+  have hba : 0 < b - a := sub_pos.mpr hab
+  have hma : 0 < m - a := sub_pos.mpr ham
+  have hbm : 0 < b - m := sub_pos.mpr hmb
+  unfold triangularCdf otTriangular triangularIcdf
+  by_cases hp : p ≤ (m - a) / (b - a)
+  · rw [if_pos hp]
+    have hnn : 0 ≤ p * (b - a) * (m - a) := by positivity
+    have hle : p * (b - a) * (m - a) ≤ (m - a) ^ 2 := by
+      have : p * (b - a) ≤ m - a := by rwa [le_div_iff₀ hba] at hp
+      nlinarith
+    have hsq : sqrt (p * (b - a) * (m - a)) ≤ m - a := by
+      calc sqrt (p * (b - a) * (m - a)) ≤ sqrt ((m - a) ^ 2) := sqrt_le_sqrt hle
+        _ = m - a := sqrt_sq hma.le
+    by_cases hp' : p = 0
+    · subst hp'; simp
+    · have hpp : 0 < p := lt_of_le_of_ne hp0 (Ne.symm hp')
+      have hpos : 0 < sqrt (p * (b - a) * (m - a)) := sqrt_pos.mpr (by positivity)
+      rw [if_neg (by linarith), if_pos (by linarith)]
+      have : (a + sqrt (p * (b - a) * (m - a)) - a) ^ 2 = p * (b - a) * (m - a) := by
+        rw [add_sub_cancel_left, sq_sqrt hnn]
+      rw [this]
+      field_simp
+  · rw [if_neg hp]
+    have hp2 : (m - a) / (b - a) < p := not_le.mp hp
+    have hnn : 0 ≤ (1 - p) * (b - a) * (b - m) := by
+      have : 0 ≤ 1 - p := by linarith
+      positivity
+    have hlt : (1 - p) * (b - a) * (b - m) < (b - m) ^ 2 := by
+      have : m - a < p * (b - a) := by rwa [div_lt_iff₀ hba] at hp2
+      nlinarith
+    have hsq : sqrt ((1 - p) * (b - a) * (b - m)) < b - m := by
+      calc sqrt ((1 - p) * (b - a) * (b - m)) < sqrt ((b - m) ^ 2) := sqrt_lt_sqrt hnn hlt
+        _ = b - m := sqrt_sq hbm.le
+    have hs0 : 0 ≤ sqrt ((1 - p) * (b - a) * (b - m)) := sqrt_nonneg _
+    rw [if_neg (by linarith), if_neg (by linarith)]
+    by_cases hp' : p = 1
+    · subst hp'; simp
+    · have hpp : 0 < 1 - p := by
+        have : p < 1 := lt_of_le_of_ne hp1 hp'
+        linarith
+      have hpos : 0 < sqrt ((1 - p) * (b - a) * (b - m)) := sqrt_pos.mpr (by positivity)
+      rw [if_pos (by linarith)]
+      have : (b - (b - sqrt ((1 - p) * (b - a) * (b - m)))) ^ 2 = (1 - p) * (b - a) * (b - m) := by
+        rw [sub_sub_cancel, sq_sqrt hnn]
+      rw [this]
+      field_simp
+      ring
+
+theorem triangular_icdf_cdf (a m b x : ℝ) (ham : a < m) (hmb : m < b) (hx0 : a ≤ x) (hx1 : x ≤ b) :
+    triangularIcdf a m b (triangularCdf a m b x) = x := by
+  have hab : a < b := lt_trans ham hmb
+  have hba : 0 < b - a := sub_pos.mpr hab
+  have hma : 0 < m - a := sub_pos.mpr ham
+  have hbm : 0 < b - m := sub_pos.mpr hmb
+  unfold triangularCdf otTriangular triangularIcdf
+  by_cases h1 : x ≤ a
+  · have : x = a := le_antisymm h1 hx0
+    subst this
+    have : (0 : ℝ) ≤ (m - x) / (b - x) := by positivity
+    simp [this]
+  · rw [if_neg h1]
+    have hxa : 0 < x - a := by linarith [not_le.mp h1]
+    by_cases h2 : x ≤ m
+    · rw [if_pos h2]
+      have hle : (x - a) ^ 2 / ((b - a) * (m - a)) ≤ (m - a) / (b - a) := by
+        rw [div_le_div_iff₀ (by positivity) hba]
+        have : (x - a) ^ 2 ≤ (m - a) ^ 2 := by nlinarith
+        nlinarith
+      rw [if_pos hle]
+      have : (x - a) ^ 2 / ((b - a) * (m - a)) * (b - a) * (m - a) = (x - a) ^ 2 := by field_simp
+      rw [this, sqrt_sq hxa.le]; ring
+    · rw [if_neg h2]
+      have hxm : m < x := not_le.mp h2
+      by_cases h3 : x < b
+      · rw [if_pos h3]
+        have hbx : 0 < b - x := by linarith
+        have hgt : ¬ (1 - (b - x) ^ 2 / ((b - a) * (b - m)) ≤ (m - a) / (b - a)) := by
+          rw [not_le, div_lt_iff₀ hba]
+          have h4 : (b - x) ^ 2 < (b - m) ^ 2 := by nlinarith
+          have h5 : (b - x) ^ 2 / ((b - a) * (b - m)) * (b - a) < b - m := by
+            rw [div_mul_eq_mul_div, div_lt_iff₀ (by positivity)]
+            nlinarith
+          nlinarith
+        rw [if_neg hgt]
+        have : (1 - (1 - (b - x) ^ 2 / ((b - a) * (b - m)))) * (b - a) * (b - m) = (b - x) ^ 2 := by
+          field_simp; ring
+        rw [this, sqrt_sq hbx.le]; ring
+      · rw [if_neg h3]
+        have : x = b := le_antisymm hx1 (not_lt.mp h3)
+        subst this
+        have : ¬ ((1 : ℝ) ≤ (m - a) / (x - a)) := by
+          rw [not_le, div_lt_one hba]; linarith
+        simp [this]
+
+/-- The inverse CDF maps `[0,1]` into the support `[a,b]`. -/
+theorem triangular_icdf_mem_support (a m b p : ℝ) (ham : a ≤ m) (hmb : m ≤ b) (hp0 : 0 ≤ p)
+    (hp1 : p ≤ 1) : a ≤ triangularIcdf a m b p ∧ triangularIcdf a m b p ≤ b := by
+  unfold triangularIcdf
+  have hba : 0 ≤ b - a := by linarith
+  split
+  · rename_i hp
+    refine ⟨by linarith [sqrt_nonneg (p * (b - a) * (m - a))], ?_⟩
+    have hle : p * (b - a) * (m - a) ≤ (b - a) ^ 2 := by
+      have h1 : p * (b - a) ≤ b - a := by nlinarith
+      have h2 : 0 ≤ m - a := by linarith
+      have h3 : m - a ≤ b - a := by linarith
+      nlinarith [mul_nonneg hp0 hba]
+    have : sqrt (p * (b - a) * (m - a)) ≤ b - a := by
+      calc sqrt (p * (b - a) * (m - a)) ≤ sqrt ((b - a) ^ 2) := sqrt_le_sqrt hle
+        _ = b - a := sqrt_sq hba
+    linarith
+  · refine ⟨?_, by linarith [sqrt_nonneg ((1 - p) * (b - a) * (b - m))]⟩
+    have hle : (1 - p) * (b - a) * (b - m) ≤ (b - a) ^ 2 := by
+      have h0 : 0 ≤ 1 - p := by linarith
+      have h1 : (1 - p) * (b - a) ≤ b - a := by nlinarith
+      have h2 : 0 ≤ b - m := by linarith
+      have h3 : b - m ≤ b - a := by linarith
+      nlinarith [mul_nonneg h0 hba]
+    have : sqrt ((1 - p) * (b - a) * (b - m)) ≤ b - a := by
+      calc sqrt ((1 - p) * (b - a) * (b - m)) ≤ sqrt ((b - a) ^ 2) := sqrt_le_sqrt hle
+        _ = b - a := sqrt_sq hba
+    linarith
+
+/-- density `2(x-a)/((b-a)(m-a))` on `[a,m]`, `2(b-x)/((b-a)(b-m))` on `[m,b]`: mean `(a+m+b)/3`. -/
+theorem triangular_mean (a m b : ℝ) (ham : a < m) (hmb : m < b) :
+    (∫ x in a..m, x * (2 * (x - a) / ((b - a) * (m - a)))) +
+      (∫ x in m..b, x * (2 * (b - x) / ((b - a) * (b - m)))) = (a + m + b) / 3 := by
+  have hba : b - a ≠ 0 := (sub_pos.mpr (lt_trans ham hmb)).ne'
+  have hma : m - a ≠ 0 := (sub_pos.mpr ham).ne'
+  have hbm : b - m ≠ 0 := (sub_pos.mpr hmb).ne'
+  have e1 : ∀ x : ℝ, x * (2 * (x - a) / ((b - a) * (m - a))) =
+      0 + (-2 * a / ((b - a) * (m - a))) * x + (2 / ((b - a) * (m - a))) * x ^ 2 + 0 * x ^ 3 := by
+    intro x; field_simp; ring
+  have e2 : ∀ x : ℝ, x * (2 * (b - x) / ((b - a) * (b - m))) =
+      0 + (2 * b / ((b - a) * (b - m))) * x + (-2 / ((b - a) * (b - m))) * x ^ 2 + 0 * x ^ 3 := by
+    intro x; field_simp; ring
+  simp_rw [e1, e2]
+  rw [integral_poly3, integral_poly3]
+  field_simp
+  ring
+
+/-- variance `(a² + m² + b² - am - ab - mb)/18`. -/
+theorem triangular_variance (a m b : ℝ) (ham : a < m) (hmb : m < b) :
+    (∫ x in a..m, (x - (a + m + b) / 3) ^ 2 * (2 * (x - a) / ((b - a) * (m - a)))) +
+      (∫ x in m..b, (x - (a + m + b) / 3) ^ 2 * (2 * (b - x) / ((b - a) * (b - m)))) =
+      (a ^ 2 + m ^ 2 + b ^ 2 - a * m - a * b - m * b) / 18 := by
+  have hba : b - a ≠ 0 := (sub_pos.mpr (lt_trans ham hmb)).ne'
+  have hma : m - a ≠ 0 := (sub_pos.mpr ham).ne'
+  have hbm : b - m ≠ 0 := (sub_pos.mpr hmb).ne'
+  set μ := (a + m + b) / 3 with hμ
+  have e1 : ∀ x : ℝ, (x - μ) ^ 2 * (2 * (x - a) / ((b - a) * (m - a))) =
+      (-2 * a * μ ^ 2 / ((b - a) * (m - a))) + ((2 * μ ^ 2 + 4 * a * μ) / ((b - a) * (m - a))) * x +
+        ((-4 * μ - 2 * a) / ((b - a) * (m - a))) * x ^ 2 + (2 / ((b - a) * (m - a))) * x ^ 3 := by
+    intro x; field_simp; ring
+  have e2 : ∀ x : ℝ, (x - μ) ^ 2 * (2 * (b - x) / ((b - a) * (b - m))) =
+      (2 * b * μ ^ 2 / ((b - a) * (b - m))) + ((-2 * μ ^ 2 - 4 * b * μ) / ((b - a) * (b - m))) * x +
+        ((4 * μ + 2 * b) / ((b - a) * (b - m))) * x ^ 2 + (-2 / ((b - a) * (b - m))) * x ^ 3 := by
+    intro x; field_simp; ring
+  simp_rw [e1, e2]
+  rw [integral_poly3, integral_poly3, hμ]
+  field_simp
+  ring
+
+/-! ### Samples in the support (inverse-transform sampling) -/
+
+/-- If the inverse CDF is monotone on `[0,1]` with `Q 0 = lb`, `Q 1 = ub`, every image of a point
+    of the unit interval lies in the support `[lb, ub]`. -/
+theorem icdf_image_in_support (Q : ℝ → ℝ) (lb ub : ℝ) (hmono : MonotoneOn Q (Set.Icc 0 1))
+    (h0 : Q 0 = lb) (h1 : Q 1 = ub) (u : ℝ) (hu : u ∈ Set.Icc (0 : ℝ) 1) :
+    lb ≤ Q u ∧ Q u ≤ ub := by
+  constructor
+  · rw [← h0]; exact hmono ⟨le_refl _, by norm_num⟩ hu hu.1
+  · rw [← h1]; exact hmono hu ⟨by norm_num, le_refl _⟩ hu.2
+
+/-! ### SciPy's loc/scale form of the closed-form laws (plain variables; instantiated with the
+generated mappings in Props/C19.lean) -/
+
+theorem sp_exponential_eq (rate loc x : ℝ) (hr : 0 < rate) :
+    spCdf stdExponCdf loc (1 / rate) x = exponentialCdf rate loc x := by
+  have hy : (x - loc) / (1 / rate) = rate * (x - loc) := by field_simp
+  unfold spCdf stdExponCdf exponentialCdf otExponential
+  rw [hy]
+  have : rate * (x - loc) ≤ 0 ↔ x ≤ loc := by
+    constructor
+    · intro h; by_contra hc; nlinarith [mul_pos hr (sub_pos.mpr (not_le.mp hc))]
+    · intro h; nlinarith
+  by_cases hx : x ≤ loc
+  · rw [if_pos (this.mpr hx), if_pos hx]
+  · rw [if_neg (fun h => hx (this.mp h)), if_neg hx]
+
+theorem sp_triangular_eq (a m b x : ℝ) (ham : a < m) (hmb : m < b) :
+    spCdf (stdTriangCdf ((m - a) / (b - a))) a (b - a) x = triangularCdf a m b x := by
+  have hba : 0 < b - a := by linarith
+  have hma : 0 < m - a := by linarith
+  have hbm : 0 < b - m := by linarith
+  unfold spCdf stdTriangCdf triangularCdf otTriangular
+  have h0 : (x - a) / (b - a) ≤ 0 ↔ x ≤ a := by
+    rw [div_le_iff₀ hba]; constructor <;> intro h <;> linarith
+  have hc : (x - a) / (b - a) ≤ (m - a) / (b - a) ↔ x ≤ m := by
+    rw [div_le_div_iff_of_pos_right hba]; constructor <;> intro h <;> linarith
+  have h1 : (x - a) / (b - a) < 1 ↔ x < b := by
+    rw [div_lt_one hba]; constructor <;> intro h <;> linarith
+  by_cases hx0 : x ≤ a
+  · rw [if_pos (h0.mpr hx0), if_pos hx0]
+  · rw [if_neg (fun h => hx0 (h0.mp h)), if_neg hx0]
+    by_cases hxm : x ≤ m
+    · rw [if_pos (hc.mpr hxm), if_pos hxm]
+      field_simp
+    · rw [if_neg (fun h => hxm (hc.mp h)), if_neg hxm]
+      by_cases hxb : x < b
+      · rw [if_pos (h1.mpr hxb), if_pos hxb]
+        have e1 : 1 - (x - a) / (b - a) = (b - x) / (b - a) := by field_simp; ring
+        have e2 : 1 - (m - a) / (b - a) = (b - m) / (b - a) := by field_simp; ring
+        rw [e1, e2]
+        field_simp
+      · rw [if_neg (fun h => hxb (h1.mp h)), if_neg hxb]
+
+theorem sp_weibull_min_eq (location scale shape x : ℝ) (hs : 0 < scale) :
+    spCdf (stdWeibullMinCdf shape) location scale x = weibullMinCdf location scale shape x := by
+  unfold spCdf stdWeibullMinCdf weibullMinCdf
+  have h0 : (x - location) / scale ≤ 0 ↔ x ≤ location := by
+    rw [div_le_iff₀ hs]; constructor <;> intro h <;> linarith
+  by_cases hx : x ≤ location
+  · rw [if_pos (h0.mpr hx), if_pos hx]
+  · rw [if_neg (fun h => hx (h0.mp h)), if_neg hx]
+
+theorem sp_weibull_max_eq (location scale shape x : ℝ) (hs : 0 < scale) :
+    spCdf (stdWeibullMaxCdf shape) location scale x = weibullMaxCdf location scale shape x := by
+  unfold spCdf stdWeibullMaxCdf weibullMaxCdf
+  have h1 : (x - location) / scale < 0 ↔ x < location := by
+    rw [div_lt_iff₀ hs]; constructor <;> intro h <;> linarith
+  have e : -((x - location) / scale) = (location - x) / scale := by ring
+  by_cases hx : x < location
+  · rw [if_pos (h1.mpr hx), if_pos hx, e]
+  · rw [if_neg (fun h => hx (h1.mp h)), if_neg hx]
+
+theorem sp_lognormal_eq (Φ : ℝ → ℝ) (mu sigma location x : ℝ) :
+    spCdf (stdLognormCdf Φ sigma) location (exp mu) x = logNormalCdf Φ mu sigma location x := by
+  unfold spCdf stdLognormCdf logNormalCdf
+  have hpos : 0 < exp mu := exp_pos mu
+  have h0 : (x - location) / exp mu ≤ 0 ↔ x ≤ location := by
+    rw [div_le_iff₀ hpos]; constructor <;> intro h <;> linarith
+  by_cases hx : x ≤ location
+  · rw [if_pos (h0.mpr hx), if_pos hx]
+  · rw [if_neg (fun h => hx (h0.mp h)), if_neg hx]
+    have hxl : x - location ≠ 0 := (sub_pos.mpr (not_le.mp hx)).ne'
+    rw [log_div hxl hpos.ne', log_exp]
+
 end
 end GV.C19.Laws
